@@ -47,7 +47,8 @@ structure Cfg where
   /-- views and copies share the parent's attribute objects, and `+= ramp`, `*=` update the
   interval object in place -/
   shareAttrs : Bool
-  /-- the interval is updated before numpy has checked the operand's shape -/
+  /-- the interval is updated before numpy has checked the operand's shape; an operand whose step
+  cancels the interval is accepted -/
   earlyUpdate : Bool
   deriving Repr, DecidableEq
 
@@ -181,6 +182,9 @@ def inheritAttrs (cfg : Cfg) (store : List Int) (p : Axis) (samples : List Int) 
     (store ++ [sget store p.t0, sget store p.dt, sget store p.dur],
      { p with samples := samples, t0 := i, dt := i + 1, dur := i + 2 })
 
+/-- a 1-d operand whose step cancels the sampling interval would put all samples on one instant -/
+def collapses (dt dd : Int) : Bool := dd != 0 && dt + dd == 0
+
 /-- shift / ramp addition (`sgn = 1`) or subtraction (`sgn = -1`) -/
 def shiftOp (cfg : Cfg) (s : State) (sgn : Int) (vals : Option (List Int)) (v0 d : Int) :
     State × Option Err :=
@@ -212,6 +216,8 @@ def shiftOp (cfg : Cfg) (s : State) (sgn : Int) (vals : Option (List Int)) (v0 d
       else (s, some .valueError)
   else
     if fits then
+      -- repaired: an operand that would collapse the axis is refused before anything changes
+      if collapses dt dd then (s, some .valueError) else
       let (store', ax') := setSampling s.store newSamples ax.unit ax.rate (t0 + sgn * v0) (dt + dd)
       ({ s with store := store', cur := ax' }, none)
     else (s, some .valueError)
@@ -301,12 +307,18 @@ def absStep (a : Abs) : Op → Abs
   | .addR r =>
     let vals := convRamp a.unit r
     match rampStep vals with
-    | .ok d => if vals.length = a.n then { a with t0 := a.t0 + vals.headD 0, dt := a.dt + d } else a
+    | .ok d =>
+      if vals.length = a.n then
+        (if collapses a.dt (1 * d) then a else { a with t0 := a.t0 + vals.headD 0, dt := a.dt + d })
+      else a
     | .error _ => a
   | .subR r =>
     let vals := convRamp a.unit r
     match rampStep vals with
-    | .ok d => if vals.length = a.n then { a with t0 := a.t0 - vals.headD 0, dt := a.dt - d } else a
+    | .ok d =>
+      if vals.length = a.n then
+        (if collapses a.dt (-1 * d) then a else { a with t0 := a.t0 - vals.headD 0, dt := a.dt - d })
+      else a
     | .error _ => a
   | .mul k => if k = 0 then a else { a with t0 := a.t0 * k, dt := a.dt * k }
   | .div k => if k = 0 ∨ a.t0 % k ≠ 0 ∨ a.dt % k ≠ 0 then a else { a with t0 := a.t0 / k, dt := a.dt / k }
